@@ -399,7 +399,95 @@ func runC16(c *Ctx) {
 }
 
 // c16Writer: the library never modifies rows or slices the caller passes to Write.
+// rows with nil pointers inside slices: the reflection-based write paths walk them with accessors that also serve the
+// read direction, where a nil pointer is something to allocate
+type c16Item struct {
+	A int64  `parquet:"a"`
+	B string `parquet:"b"`
+}
+
+type c16PtrRow struct {
+	ID    int64      `parquet:"id"`
+	Items []*c16Item `parquet:"items"`
+	One   *c16Item   `parquet:"one"`
+}
+
+func c16NilPointers(c *Ctx, r *gen.Rand) {
+	n := 1 + r.Intn(20)
+	rows := make([]c16PtrRow, n)
+	for i := range rows {
+		rows[i].ID = int64(i)
+		for j := r.Intn(4); j > 0; j-- {
+			if r.Bool() {
+				rows[i].Items = append(rows[i].Items, nil)
+			} else {
+				rows[i].Items = append(rows[i].Items, &c16Item{A: int64(j), B: "b"})
+			}
+		}
+		if r.Bool() {
+			rows[i].One = &c16Item{A: 7}
+		}
+	}
+	nils := func() (k int) {
+		for i := range rows {
+			for _, it := range rows[i].Items {
+				if it == nil {
+					k++
+				}
+			}
+			if rows[i].One == nil {
+				k++
+			}
+		}
+		return k
+	}
+	before := nils()
+	schema := parquet.SchemaOf(c16PtrRow{})
+	api := []string{"Schema.Deconstruct", "Writer.Write(any)", "Buffer.Write", "RowBuffer.Write", "GenericWriter.Write"}[r.Intn(5)]
+	c.D("api", api)
+	c.D("nil_pointer_rows", n)
+	c.guard("c16.panic", map[string]any{"api": api, "rows": "nil_pointer_elements"}, func() {
+		switch api {
+		case "Schema.Deconstruct":
+			for i := range rows {
+				schema.Deconstruct(nil, &rows[i])
+			}
+		case "Writer.Write(any)":
+			var b bytes.Buffer
+			w := parquet.NewWriter(&b, schema)
+			for i := range rows {
+				w.Write(&rows[i])
+			}
+			w.Close()
+		case "Buffer.Write":
+			b := parquet.NewBuffer(schema)
+			for i := range rows {
+				b.Write(&rows[i])
+			}
+		case "RowBuffer.Write":
+			b := parquet.NewRowBuffer[c16PtrRow]()
+			b.Write(rows)
+		default:
+			var b bytes.Buffer
+			w := parquet.NewGenericWriter[c16PtrRow](&b)
+			w.Write(rows)
+			w.Close()
+		}
+	})
+	if after := nils(); after != before {
+		c.Fail("c16.writer_modified_input", map[string]any{"api": api, "rows": "nil_pointer_elements"}, "%s replaced nil pointers in the caller's rows by allocated values: %d nil pointers before the call, %d after", api, before, after)
+		return
+	}
+	c.Obs("nil_pointer_inputs_checked", 1)
+}
+
 func c16Writer(c *Ctx, r *gen.Rand, te *typeEntry, rows reflect.Value, opts []parquet.WriterOption, keys map[string]any) {
+	if r.P(15) {
+		c16NilPointers(c, r)
+		if c.Failed() {
+			return
+		}
+	}
 	n := rows.Len()
 	snap := deepCopy(rows)
 	schema := te.ops.Schema()
